@@ -369,9 +369,30 @@ def _s2(program, res):
                 res.fail_at("C04-S2", stub, "container:force_sql", f"a rebuilt container gets force_sql={kws.get('force_sql')}", st)
     if n_c < 3:
         raise AnalysisError("to_with_form_stub: rebuilt containers not found")
+    # every container built here stands for `self` (as the reference, or as the definition of the CTE): convert_subsql hands
+    # `columns` to the emitter, where it fixes the select list *and its order* (a positional UNION ALL depends on it)
+    n_all = 0
+    for c in ast.walk(stub.node):
+        if isinstance(c, ast.Call) and dotted_name(c.func) == "NearSQLContainer":
+            n_all += 1
+            kws = {kw.arg: unparse(kw.value) for kw in c.keywords}
+            if kws.get("columns") == "self.columns":
+                res.ok("C04-S2", f"to_with_form_stub: container over `{kws.get('near_sql')}` carries columns=self.columns")
+            else:
+                res.fail_at("C04-S2", stub, f"container-definition:columns:{kws.get('near_sql')}",
+                            f"the container built over `{kws.get('near_sql')}` gets columns={kws.get('columns')}: the WITH definition would list the step's own "
+                            f"terms in their own order instead of the requested columns, while the nested form keeps the requested order "
+                            f"(a UNION ALL of two such references pairs columns by position)", c)
+            if kws.get("force_sql") not in ("self.force_sql", "True"):
+                res.fail_at("C04-S2", stub, f"container-definition:force_sql:{kws.get('near_sql')}", f"container over `{kws.get('near_sql')}` gets force_sql={kws.get('force_sql')}", c)
+    if n_all < 4:
+        raise AnalysisError("to_with_form_stub: container constructions not found")
     # own step appended after the recursive sequence
-    txt = unparse(stub.node)
-    if "sequence.append(" in txt and "in_with_form.previous_steps" in txt:
+    seq_vars = {st.targets[0].id for st in ast.walk(stub.node) if isinstance(st, ast.Assign) and len(st.targets) == 1
+                and isinstance(st.targets[0], ast.Name) and unparse(st.value).endswith(".previous_steps")}
+    appended = any(isinstance(c, ast.Call) and isinstance(c.func, ast.Attribute) and c.func.attr == "append" and isinstance(c.func.value, ast.Name)
+                   and c.func.value.id in seq_vars for c in ast.walk(stub.node))
+    if seq_vars and appended:
         res.ok("C04-S2", "to_with_form_stub appends its own step after the sub-pipeline's sequence")
     else:
         res.fail_at("C04-S2", stub, "sequence-append", "own step is not appended after the recursive sequence")
